@@ -1066,7 +1066,7 @@ def random_shard(shard, nshards, seed, tier):
                 return None
             return v
 
-        total = int(os.environ.get('VERIF_C15_RANDOM', '6000' if tier == 'quick' else '400000'))
+        total = int(os.environ.get('VERIF_C15_RANDOM', '4500' if tier == 'quick' else '400000'))
         sizes = [5, 6, 6] if tier == 'quick' else [6]
         core.hyp_search(random_cases(sizes), check, st_, max_examples=max(1, total // nshards), seed=seed)
     return st_
